@@ -32,6 +32,7 @@ from unified_planning.model.types import domain_size, domain_item
 from unified_planning.model.walkers import Simplifier
 from unified_planning.model.problem_kind_versioning import LATEST_PROBLEM_KIND_VERSION
 from unified_planning.engines.compilers.utils import (
+    get_fresh_name,
     lift_action_instance,
     create_action_with_given_subs,
     split_all_ands,
@@ -460,6 +461,10 @@ class Grounder(engines.engine.Engine, CompilerMixin):
             new_action,
         ) in grounder_helper.get_grounded_actions():
             if new_action is not None:
+                if new_problem.has_name(new_action.name):
+                    # joining names with "_" is not injective (move(a_b, c) vs move(a, b_c)):
+                    # the name must be fresh in the problem being built too
+                    new_action.name = get_fresh_name(new_problem, new_action.name)
                 new_problem.add_action(new_action)
                 trace_back_map[new_action] = (old_action, list(parameters))
 
